@@ -298,13 +298,15 @@ func exprList(w *World, vs []ssa.Value) string {
 }
 
 // c10Framing: both copies of the framed read allocate only under length <= bound; write refuses longer data.
-func c10Framing(c *Ctx) {
+func c10Framing(c *Ctx) { framingRules(c, "R3.framing") }
+
+func framingRules(c *Ctx, rule string) {
 	w := c.w
 	bounds := map[string]int64{}
 	for _, pkg := range []string{shimPkg, yubiPkg} {
 		rd, wr := w.Func(pkg, "read"), w.Func(pkg, "write")
 		if rd == nil || wr == nil {
-			c.Unresolved("R3.framing", "framed read/write helpers of "+pkg)
+			c.Unresolved(rule, "framed read/write helpers of "+pkg)
 			continue
 		}
 		c.Saw(rd)
@@ -352,13 +354,13 @@ func c10Framing(c *Ctx) {
 					}
 					return false
 				})
-				c.Check(bound >= 0 && bound <= 16<<20, "R3.framing", pkg+".read|allocation bounded", w.Pos(ms.Pos()), "make([]byte, l) under must-fact l <= "+itoa(int(bound)), "the frame buffer is allocated without the must-fact 'declared length <= 16 MiB' (bound found: "+itoa(int(bound))+")")
+				c.Check(bound >= 0 && bound <= 16<<20, rule, pkg+".read|allocation bounded", w.Pos(ms.Pos()), "make([]byte, l) under must-fact l <= "+itoa(int(bound)), "the frame buffer is allocated without the must-fact 'declared length <= 16 MiB' (bound found: "+itoa(int(bound))+")")
 				bounds[pkg] = bound
 				// length comes from the 4-byte big-endian prefix
-				c.Check(strings.Contains(w.Expr(base), "Uint32"), "R3.framing", pkg+".read|length is the frame prefix", w.Pos(ms.Pos()), "binary.BigEndian.Uint32(prefix)", "the allocated length is not the decoded frame prefix")
+				c.Check(strings.Contains(w.Expr(base), "Uint32"), rule, pkg+".read|length is the frame prefix", w.Pos(ms.Pos()), "binary.BigEndian.Uint32(prefix)", "the allocated length is not the decoded frame prefix")
 			}
 		}
-		c.Floor("R3.framing", nAlloc, 1, "frame buffer allocation in "+pkg+".read")
+		c.Floor(rule, nAlloc, 1, "frame buffer allocation in "+pkg+".read")
 		// write: every Write call has the fact not (len(data) > C)
 		wf := w.Facts(wr)
 		nW := 0
@@ -373,12 +375,12 @@ func c10Framing(c *Ctx) {
 				k, isK := intConst(bin.Y)
 				return la != nil && w.Expr(la) == "p1" && isK && k <= 16<<20
 			})
-			c.Check(ok, "R3.framing", pkg+".write|refuses oversized data", w.Pos(call.Pos()), "must-fact not (len(data) > bound)", "data longer than the bound can be written (the 4-byte length would wrap or the peer would refuse it)")
+			c.Check(ok, rule, pkg+".write|refuses oversized data", w.Pos(call.Pos()), "must-fact not (len(data) > bound)", "data longer than the bound can be written (the 4-byte length would wrap or the peer would refuse it)")
 		}
-		c.Floor("R3.framing", nW, 2, "Write calls in "+pkg+".write")
+		c.Floor(rule, nW, 2, "Write calls in "+pkg+".write")
 	}
 	if len(bounds) == 2 {
-		c.Check(bounds[shimPkg] == bounds[yubiPkg], "R3.framing", "read|both copies use the same bound", "-", "equal constants", "the two framed readers disagree on the maximum frame size")
+		c.Check(bounds[shimPkg] == bounds[yubiPkg], rule, "read|both copies use the same bound", "-", "equal constants", "the two framed readers disagree on the maximum frame size")
 	}
 }
 
